@@ -10,7 +10,7 @@
   Token level: IRIREF and strings from `Proofs/C07Tok.lean`; language tags and blank-node labels
   here.  The one exclusion: blank-node labels containing ':' (finding C07-bnode-label-colon).
 -/
-import RdfModel.Proofs.TtlDocTrunc
+import RdfModel.Proofs.TtlDocPrefix2
 import RdfModel.Proofs.C07Tok
 namespace RdfModel.TtlDoc
 open RdfModel
@@ -166,5 +166,769 @@ theorem nt_captureTerm_skip (h : NTCfg Tn T C) (urlOk : List Nat → Bool) (pos 
               split at hh
               · next h5 => rw [if_pos h5]; exact ih _ _ _ hh
               · cases hh
+
+/-! ### Tokens: language tags -/
+
+theorem goString_small {l : List Nat} (h : ∀ x ∈ l, x < 0x80) : goString l = l :=
+  goString_id_of_scalar (fun r hr => Or.inl (by have := h r hr; omega))
+
+theorem alnum_small {c : Nat} (h : (NQ.isAlpha c || NQ.isDigit c) = true) : c < 0x80 := by
+  simp only [NQ.isAlpha, NQ.isDigit, Bool.or_eq_true, Bool.and_eq_true, decide_eq_true_eq] at h
+  omega
+
+theorem nt_langSecondary (e : End) : ∀ (i acc v r : List Nat), (∀ x ∈ acc, x < 0x80) →
+    NQ.langSecondary e i acc = .ok v r → Ttl.langSecondary e i acc = .ok v r := by
+  intro i
+  induction i with
+  | nil => intro acc v r _ h; simp [NQ.langSecondary] at h
+  | cons c rest ih =>
+    intro acc v r hacc h
+    simp only [NQ.langSecondary, Ttl.langSecondary] at h ⊢
+    by_cases h1 : (NQ.isAlpha c || NQ.isDigit c) = true
+    · rw [if_pos h1] at h
+      rw [if_pos (show (Ttl.isAlpha c || Ttl.isDigit c) = true from h1)]
+      exact ih _ _ _ (fun x hx => by
+        rcases List.mem_cons.mp hx with rfl | hx
+        · exact alnum_small h1
+        · exact hacc x hx) h
+    · rw [if_neg h1] at h
+      rw [if_neg (show ¬ (Ttl.isAlpha c || Ttl.isDigit c) = true from h1)]
+      by_cases h2 : c = 0x2d
+      · rw [if_pos h2] at h ⊢
+        by_cases h3 : acc.head? = some 0x2d
+        · rw [if_pos h3] at h; cases h
+        · rw [if_neg h3] at h ⊢
+          exact ih _ _ _ (fun x hx => by
+            rcases List.mem_cons.mp hx with rfl | hx
+            · omega
+            · exact hacc x hx) h
+      · rw [if_neg h2] at h ⊢
+        by_cases h3 : acc.head? = some 0x2d
+        · rw [if_pos h3] at h; cases h
+        · rw [if_neg h3] at h
+          injection h with q1 q2; subst q1; subst q2
+          simp only [Ttl.langDone, if_neg h3]
+          rw [goString_small (fun x hx => hacc x (List.mem_reverse.mp hx))]
+
+theorem nt_langPrimary (e : End) : ∀ (i acc v r : List Nat), (∀ x ∈ acc, NQ.isAlpha x = true) →
+    NQ.langPrimary e i acc = .ok v r → Ttl.langPrimary e i acc = .ok v r := by
+  intro i
+  induction i with
+  | nil => intro acc v r _ h; simp [NQ.langPrimary] at h
+  | cons c rest ih =>
+    intro acc v r hacc h
+    have hsmall : ∀ x ∈ acc, x < 0x80 := fun x hx => alnum_small (by simp [hacc x hx])
+    simp only [NQ.langPrimary, Ttl.langPrimary] at h ⊢
+    by_cases h1 : NQ.isAlpha c = true
+    · rw [if_pos h1] at h
+      rw [if_pos (show Ttl.isAlpha c = true from h1)]
+      exact ih _ _ _ (fun x hx => by
+        rcases List.mem_cons.mp hx with rfl | hx
+        · exact h1
+        · exact hacc x hx) h
+    · rw [if_neg h1] at h
+      rw [if_neg (show ¬ Ttl.isAlpha c = true from h1)]
+      by_cases h2 : c = 0x2d
+      · rw [if_pos h2] at h ⊢
+        by_cases h3 : acc.isEmpty = true
+        · rw [if_pos h3] at h; cases h
+        · rw [if_neg h3] at h ⊢
+          exact nt_langSecondary e _ _ _ _ (fun x hx => by
+            rcases List.mem_cons.mp hx with rfl | hx
+            · omega
+            · exact hsmall x hx) h
+      · rw [if_neg h2] at h ⊢
+        by_cases h3 : acc.isEmpty = true
+        · rw [if_pos h3] at h; cases h
+        · rw [if_neg h3] at h ⊢
+          injection h with q1 q2; subst q1; subst q2
+          have hhead : ¬ acc.head? = some 0x2d := by
+            intro hh
+            cases acc with
+            | nil => cases hh
+            | cons a t =>
+              simp only [List.head?_cons, Option.some.injEq] at hh
+              have := hacc a List.mem_cons_self
+              rw [hh] at this; revert this; decide
+          simp only [Ttl.langDone, if_neg hhead]
+          rw [goString_small (fun x hx => hsmall x (List.mem_reverse.mp hx))]
+
+/-! ### Tokens: blank-node labels (the ':' exclusion) -/
+
+theorem nt_bnFinish_mem (accRev rest l r : List Nat) (h : NQ.bnFinish Tn accRev rest = .ok l r) :
+    ∀ x ∈ accRev, x ≠ 0x2e → x ∈ l := by
+  unfold NQ.bnFinish at h
+  split at h
+  · cases accRev with
+    | nil => cases h
+    | cons a more =>
+      simp only [] at h
+      by_cases ha : a = 0x2e
+      · rw [if_pos ha] at h
+        cases more with
+        | nil => cases h
+        | cons l' t =>
+          simp only [] at h
+          split at h
+          · injection h with q1 q2; subst q1
+            intro x hx hne
+            rcases List.mem_cons.mp hx with rfl | hx
+            · exact absurd ha hne
+            · exact List.mem_reverse.mpr hx
+          · cases h
+      · rw [if_neg ha] at h
+        split at h
+        · injection h with q1 q2; subst q1
+          intro x hx _; exact List.mem_reverse.mpr hx
+        · cases h
+  · injection h with q1 q2; subst q1
+    intro x hx _; exact List.mem_reverse.mpr hx
+
+theorem nt_bnLoop_mem (e : End) : ∀ (i acc l r : List Nat), NQ.bnLoop Tn e i acc = .ok l r →
+    ∀ x ∈ acc, x ≠ 0x2e → x ∈ l := by
+  intro i
+  induction i with
+  | nil => intro acc l r h; simp [NQ.bnLoop] at h
+  | cons c rest ih =>
+    intro acc l r h
+    simp only [NQ.bnLoop] at h
+    split at h
+    · intro x hx hne; exact ih _ _ _ h x (List.mem_cons_of_mem _ hx) hne
+    · exact nt_bnFinish_mem _ _ _ _ h
+
+/-- what is known about the label read so far: no ':', only name characters, and it starts with a
+    rune that is not '.' -/
+structure LabelAcc (Tn : NQ.Tables) (acc : List Nat) : Prop where
+  noColon : ∀ x ∈ acc, x ≠ 0x3a
+  scalar : ∀ x ∈ acc, IsScalar x
+  first : ∃ front c0, acc = front ++ [c0] ∧ c0 ≠ 0x2e
+
+theorem nt_bnFinish (h : NTCfg Tn T C) (acc rest l r : List Nat) (ha : LabelAcc Tn acc)
+    (hh : NQ.bnFinish Tn acc rest = .ok l r) : Ttl.bnDone T acc rest = .ok l r := by
+  have hgo : ∀ m : List Nat, (∀ x ∈ m, x ∈ acc) → goString m.reverse = m.reverse :=
+    fun m hm => goString_id_of_scalar (fun x hx => ha.scalar x (hm x (List.mem_reverse.mp hx)))
+  obtain ⟨front, c0, hacc, hc0⟩ := ha.first
+  unfold NQ.bnFinish at hh
+  cases acc with
+  | nil => cases front <;> simp at hacc
+  | cons a more =>
+    by_cases hlen : (a :: more).length ≥ 2
+    · rw [if_pos hlen] at hh; simp only [] at hh
+      by_cases hdot : a = 0x2e
+      · rw [if_pos hdot] at hh
+        cases more with
+        | nil => cases hh
+        | cons l' t =>
+          simp only [] at hh
+          split at hh
+          · next hp =>
+            injection hh with q1 q2; subst q1; subst q2
+            have hl' : l' ≠ 0x3a := ha.noColon l' (by simp)
+            have hpT : inRanges T.pnChars l' = true := by rw [← h.pn l' hl']; exact hp
+            simp only [Ttl.bnDone, hdot, if_true, hpT, Bool.not_true, Bool.and_false, Bool.false_eq_true, if_false]
+            rw [hgo (l' :: t) (fun x hx => List.mem_cons_of_mem _ hx)]
+          · cases hh
+      · rw [if_neg hdot] at hh
+        split at hh
+        · next hp =>
+          injection hh with q1 q2; subst q1; subst q2
+          have ha' : a ≠ 0x3a := ha.noColon a (by simp)
+          have hpT : inRanges T.pnChars a = true := by rw [← h.pn a ha']; exact hp
+          simp only [Ttl.bnDone, hdot, if_false, hpT, Bool.not_true, Bool.and_false, Bool.false_eq_true]
+          rw [hgo (a :: more) (fun x hx => hx)]
+        · cases hh
+    · rw [if_neg hlen] at hh
+      injection hh with q1 q2; subst q1; subst q2
+      have hm : more = [] := by
+        cases more with
+        | nil => rfl
+        | cons b t => simp at hlen
+      subst hm
+      have hac : a = c0 := by
+        cases front with
+        | nil => simpa using hacc
+        | cons f ft => cases ft <;> simp at hacc
+      have hdot : a ≠ 0x2e := hac ▸ hc0
+      simp only [Ttl.bnDone, hdot, if_false, List.isEmpty_nil, Bool.not_true, Bool.false_and, Bool.false_eq_true]
+      rw [hgo [a] (fun x hx => hx)]
+
+theorem nt_bnLoop (h : NTCfg Tn T C) (e : End) : ∀ (i acc l r : List Nat), LabelAcc Tn acc → 0x3a ∉ l →
+    NQ.bnLoop Tn e i acc = .ok l r → Ttl.bnLoop T e i acc = .ok l r := by
+  intro i
+  induction i with
+  | nil => intro acc l r _ _ hh; simp [NQ.bnLoop] at hh
+  | cons c rest ih =>
+    intro acc l r ha hl hh
+    have hmem := nt_bnLoop_mem e _ _ _ _ hh
+    simp only [NQ.bnLoop, Ttl.bnLoop] at hh ⊢
+    by_cases h1 : (inRanges Tn.pnChars c || c = 0x2e) = true
+    · rw [if_pos h1] at hh
+      have hmem' := nt_bnLoop_mem e _ _ _ _ hh
+      have hc : c ≠ 0x3a := by
+        intro hc; subst hc
+        exact hl (hmem' _ List.mem_cons_self (by decide))
+      have h1T : (inRanges T.pnChars c || c = 0x2e) = true := by rw [← h.pn c hc]; exact h1
+      rw [if_pos h1T]
+      refine ih _ _ _ ⟨?_, ?_, ?_⟩ hl hh
+      · intro x hx
+        rcases List.mem_cons.mp hx with rfl | hx
+        · exact hc
+        · exact ha.noColon x hx
+      · intro x hx
+        rcases List.mem_cons.mp hx with rfl | hx
+        · simp only [Bool.or_eq_true, decide_eq_true_eq] at h1
+          rcases h1 with h1 | h1
+          · exact h.scalar _ (Or.inl h1)
+          · subst h1; exact Or.inl (by decide)
+        · exact ha.scalar x hx
+      · obtain ⟨front, c0, hacc, hc0⟩ := ha.first
+        exact ⟨c :: front, c0, by simp [hacc], hc0⟩
+    · rw [if_neg h1] at hh
+      have h1T : ¬ (inRanges T.pnChars c || c = 0x2e) = true := by
+        by_cases hc : c = 0x3a
+        · subst hc; simp [h.colonT]
+        · rw [← h.pn c hc]; exact h1
+      rw [if_neg h1T]
+      exact nt_bnFinish h _ _ _ _ ha hh
+
+theorem nt_bnode (h : NTCfg Tn T C) (e : End) (r1 l r : List Nat) (hl : 0x3a ∉ l)
+    (hh : NQ.captureBNode Tn e r1 = .ok l r) : Ttl.produceBlankNode T e (0x5f :: 0x3a :: r1) = .ok l r := by
+  cases r1 with
+  | nil => simp [NQ.captureBNode] at hh
+  | cons c rest =>
+    simp only [NQ.captureBNode] at hh
+    split at hh
+    · next h1 =>
+      have hmem := nt_bnLoop_mem e _ _ _ _ hh
+      have hdot : c ≠ 0x2e := by
+        intro hc; subst hc
+        simp [h.dotU, NQ.isDigit] at h1
+      have hc : c ≠ 0x3a := by
+        intro hc; subst hc
+        exact hl (hmem _ (by simp) (by decide))
+      have h1T : (inRanges T.pnCharsU c || Ttl.isDigit c) = true := by
+        rw [← h.pnU c hc]; exact h1
+      simp only [Ttl.produceBlankNode, ne_eq, not_true_eq_false, if_false, h1T, if_true]
+      refine nt_bnLoop h e _ _ _ _ ⟨?_, ?_, ⟨[], c, rfl, hdot⟩⟩ hl hh
+      · intro x hx; simp at hx; subst hx; exact hc
+      · intro x hx; simp at hx; subst hx
+        simp only [Bool.or_eq_true] at h1
+        rcases h1 with h1 | h1
+        · exact h.scalar _ (Or.inr h1)
+        · simp only [NQ.isDigit, Bool.and_eq_true, decide_eq_true_eq] at h1
+          exact Or.inl (by omega)
+    · cases hh
+
+/-! ### Terms -/
+
+/-- the exclusion: a blank-node label containing ':' (finding C07-bnode-label-colon) -/
+def labelOK : Term (List Nat) → Prop
+  | .bnode l => 0x3a ∉ l
+  | _ => True
+
+theorem nt_iri (h : NTCfg Tn T C) (urlOk : List Nat → Bool) (e : End) (env : Env) (henv : env.base = none)
+    (rest v r : List Nat) (hh : NQ.captureIRI Tn urlOk e rest = .ok v r) :
+    iriIRIREF C e env (0x3c :: rest) = .ok v r := by
+  unfold NQ.captureIRI at hh
+  cases hs : NQ.scanIRI Tn e .body rest [] with
+  | err c => rw [hs] at hh; cases hh
+  | ok dec rest' =>
+    rw [hs] at hh; simp only [] at hh
+    split at hh
+    · injection hh with q1 q2; subst q1; subst q2
+      have := Proofs.C07Tok.scanIRI_sub Tn T h.hex e rest _ _ _ _ hs
+      have hp : C.P.iriref e (0x3c :: rest) = .ok (goString dec) rest' := by
+        rw [h.prod]; simp only [Producers.real, Ttl.produceIRIREF, if_true]; exact this
+      simp [iriIRIREF, hp, resolveIRI, henv]
+    · cases hh
+
+theorem nt_string (h : NTCfg Tn T C) (e : End) (inp v r : List Nat)
+    (hh : NQ.scanLit Tn e .body inp [] = .ok v r) (hstop : v = [] → C02.EmptyStrStop e r) :
+    C.P.string e (0x22 :: inp) = .ok (goString v) r := by
+  rw [h.prod]
+  show Ttl.produceString T e (0x22 :: inp) = _
+  cases inp with
+  | nil => simp [NQ.scanLit] at hh
+  | cons c1 r1 =>
+    by_cases hq : c1 = 0x22
+    · subst hq
+      rw [NQ.scanLit] at hh
+      simp only [if_true] at hh
+      cases hh
+      have hstop := hstop rfl
+      cases r with
+      | nil => simp only [C02.EmptyStrStop] at hstop; subst hstop; simp [Ttl.produceString, goString]
+      | cons c2 r2 =>
+        simp only [C02.EmptyStrStop] at hstop
+        simp [Ttl.produceString, hstop, goString]
+    · have := Proofs.C07Tok.scanLit_sub Tn T h.hex e (c1 :: r1) _ _ _ _ hh
+      simp only [Ttl.produceString, true_or, if_true]
+      rw [if_neg hq]
+      exact this
+
+theorem captureBNode_ne_nil (h : NTCfg Tn T C) (e : End) (r1 l r : List Nat)
+    (hh : NQ.captureBNode Tn e r1 = .ok l r) : l ≠ [] := by
+  cases r1 with
+  | nil => simp [NQ.captureBNode] at hh
+  | cons c rest =>
+    simp only [NQ.captureBNode] at hh
+    split at hh
+    · next h1 =>
+      have hdot : c ≠ 0x2e := by
+        intro hc; subst hc
+        simp [h.dotU, NQ.isDigit] at h1
+      have := nt_bnLoop_mem e _ _ _ _ hh c (by simp) hdot
+      intro hl; rw [hl] at this; cases this
+    · cases hh
+
+/-- what `captureTerm` does once it stands on an opener -/
+theorem nt_term_cases (urlOk : List Nat → Bool) (e : End) (pos : NQ.Pos) (c : Nat) (rest : List Nat)
+    (t : Term (List Nat)) (r : List Nat)
+    (hop : c = 0x3c ∨ (c = 0x5f ∧ pos.bnode = true) ∨ (c = 0x22 ∧ pos.literal = true))
+    (hh : NQ.captureTerm Tn urlOk e pos false (c :: rest) = .ok t r) :
+    (c = 0x3c ∧ ∃ v, t = .iri v ∧ NQ.captureIRI Tn urlOk e rest = .ok v r) ∨
+    (c = 0x5f ∧ ∃ r1 l, rest = 0x3a :: r1 ∧ t = .bnode l ∧ NQ.captureBNode Tn e r1 = .ok l r) ∨
+    (c = 0x22 ∧ pos.literal = true ∧ NQ.captureLiteral Tn urlOk e rest = .ok t r) := by
+  rcases hop with rfl | ⟨rfl, hb⟩ | ⟨rfl, hl⟩
+  · left
+    simp only [NQ.captureTerm, if_true] at hh
+    cases hc : NQ.captureIRI Tn urlOk e rest with
+    | err x => rw [hc] at hh; cases hh
+    | ok v r' => rw [hc] at hh; simp only [] at hh; injection hh with q1 q2; subst q1; subst q2; exact ⟨rfl, v, rfl, rfl⟩
+  · right; left
+    simp only [NQ.captureTerm, hb, show ¬ (0x5f : Nat) = 0x3c by decide, if_false, decide_true, Bool.and_self, if_true] at hh
+    cases rest with
+    | nil => cases hh
+    | cons c1 r1 =>
+      simp only [] at hh
+      split at hh
+      · cases hh
+      · next h1 =>
+        have h1' : c1 = 0x3a := by simpa using h1
+        subst h1'
+        cases hc : NQ.captureBNode Tn e r1 with
+        | err x => rw [hc] at hh; cases hh
+        | ok l r' => rw [hc] at hh; simp only [] at hh; injection hh with q1 q2; subst q1; subst q2; exact ⟨rfl, r1, l, rfl, rfl, hc⟩
+  · right; right
+    simp only [NQ.captureTerm, hl, show ¬ (0x22 : Nat) = 0x3c by decide, if_false, show ¬ (0x22 : Nat) = 0x5f by decide,
+      decide_false, Bool.false_and, Bool.false_eq_true, decide_true, Bool.and_self, if_true] at hh
+    exact ⟨rfl, hl, hh⟩
+
+/-- subject / graph-label tokens on the Turtle side -/
+theorem nt_node_term (h : NTCfg Tn T C) (urlOk : List Nat → Bool) (env : Env) (henv : env.base = none)
+    (c : Nat) (rest : List Nat) (t : Term (List Nat)) (r : List Nat) (hok : labelOK t)
+    (hop : c = 0x3c ∨ (c = 0x5f ∧ NQ.posSubject.bnode = true) ∨ (c = 0x22 ∧ NQ.posSubject.literal = true))
+    (hh : NQ.captureTerm Tn urlOk .eof NQ.posSubject false (c :: rest) = .ok t r) :
+    (c = 0x3c ∧ termIRIREF C .eof env (c :: rest) = .ok (t.map BN.lbl) r env) ∨
+    (c = 0x5f ∧ termBNode C .eof env (c :: rest) = .ok (t.map BN.lbl) r env) := by
+  rcases nt_term_cases urlOk .eof _ c rest t r hop hh with ⟨rfl, v, rfl, hc⟩ | ⟨rfl, r1, l, rfl, rfl, hc⟩ | ⟨_, hl, _⟩
+  · left
+    refine ⟨rfl, ?_⟩
+    simp [termIRIREF, nt_iri h urlOk .eof env henv rest v r hc, IriRes.toTerm, Term.map]
+  · right
+    refine ⟨rfl, ?_⟩
+    have hp : C.P.bnode .eof (0x5f :: 0x3a :: r1) = .ok l r := by
+      rw [h.prod]; exact nt_bnode h .eof r1 l r hok hc
+    have hne := captureBNode_ne_nil h .eof r1 l r hc
+    simp [termBNode, hp, Env.labelled, hne, Term.map]
+  · cases hl
+
+/-- `reader_scan_Object` on what `captureObject` accepts (the rune after the object is not `"`:
+    in an accepted statement white space, a comment or `.` follows). -/
+theorem nt_object (h : NTCfg Tn T C) (urlOk : List Nat → Bool) (x : Ectx) (env : Env) (henv : env.base = none)
+    (c : Nat) (rest : List Nat) (o : Term (List Nat)) (r : List Nat) (hok : labelOK o)
+    (hop : c = 0x3c ∨ (c = 0x5f ∧ NQ.posObject.bnode = true) ∨ (c = 0x22 ∧ NQ.posObject.literal = true))
+    (hh : NQ.captureTerm Tn urlOk .eof NQ.posObject false (c :: rest) = .ok o r)
+    (hnext : ∃ d r', r = d :: r' ∧ d ≠ 0x22) :
+    stepObject C .eof x env c rest = .ok { emit := some (mkStmt x (o.map BN.lbl)), inp := r, env := env } := by
+  rcases nt_term_cases urlOk .eof _ c rest o r hop hh with ⟨rfl, v, rfl, hc⟩ | ⟨rfl, r1, l, rfl, rfl, hc⟩ | ⟨rfl, _, hc⟩
+  · simp [stepObject, termIRIREF, nt_iri h urlOk .eof env henv rest v r hc, IriRes.toTerm, emitOfTerm, Term.map]
+  · have hp : C.P.bnode .eof (0x5f :: 0x3a :: r1) = .ok l r := by
+      rw [h.prod]; exact nt_bnode h .eof r1 l r hok hc
+    have hne := captureBNode_ne_nil h .eof r1 l r hc
+    simp [stepObject, termBNode, hp, Env.labelled, hne, emitOfTerm, Term.map]
+  · obtain ⟨d, r', hr, hd⟩ := hnext
+    unfold NQ.captureLiteral at hc
+    cases hs : NQ.scanLit Tn .eof .body rest [] with
+    | err k => rw [hs] at hc; cases hc
+    | ok dec rtail =>
+      rw [hs] at hc; simp only [] at hc
+      cases rtail with
+      | nil => simp only [] at hc; injection hc with _ q2; rw [hr] at q2; cases q2
+      | cons c' rest' =>
+        simp only [] at hc
+        have hstr : ∀ (hne : c' ≠ 0x22), C.P.string .eof (0x22 :: rest) = .ok (goString dec) (c' :: rest') :=
+          fun hne => nt_string h .eof rest dec _ hs (fun _ => hne)
+        by_cases h1 : c' = 0x40
+        · subst h1
+          rw [if_pos rfl] at hc
+          cases hl : NQ.langPrimary .eof rest' [] with
+          | err k => rw [hl] at hc; cases hc
+          | ok tag rr =>
+            rw [hl] at hc; simp only [] at hc
+            injection hc with q1 q2; subst q1; subst q2
+            have hlt : C.P.langtag .eof (0x40 :: rest') = .ok tag rr := by
+              rw [h.prod]
+              show Ttl.produceLANGTAG .eof (0x40 :: rest') = _
+              simp only [Ttl.produceLANGTAG, if_true]
+              exact nt_langPrimary .eof _ _ _ _ (fun x hx => by cases hx) hl
+            simp [stepObject, hstr (by decide), stepLiteralTail, hlt, Term.map]
+        · rw [if_neg h1] at hc
+          by_cases h2 : c' = 0x5e
+          · subst h2
+            rw [if_pos rfl] at hc
+            cases rest' with
+            | nil => cases hc
+            | cons c1 rr1 =>
+              simp only [] at hc
+              split at hc
+              · cases hc
+              · next h3 =>
+                have h3' : c1 = 0x5e := by simpa using h3
+                subst h3'
+                cases rr1 with
+                | nil => cases hc
+                | cons c2 rr2 =>
+                  simp only [] at hc
+                  split at hc
+                  · cases hc
+                  · next h4 =>
+                    have h4' : c2 = 0x3c := by simpa using h4
+                    subst h4'
+                    cases hi : NQ.captureIRI Tn urlOk .eof rr2 with
+                    | err k => rw [hi] at hc; cases hc
+                    | ok dt rr =>
+                      rw [hi] at hc; simp only [] at hc
+                      split at hc
+                      · cases hc
+                      · next h5 =>
+                        injection hc with q1 q2; subst q1; subst q2
+                        have := nt_iri h urlOk .eof env henv rr2 dt rr hi
+                        simp [stepObject, hstr (by decide), stepLiteralTail, this, h5, Term.map]
+          · rw [if_neg h2] at hc
+            injection hc with q1 q2; subst q1
+            have hne : c' ≠ 0x22 := by
+              rw [hr] at q2; injection q2 with q3 _; rw [q3]; exact hd
+            subst q2
+            simp [stepObject, hstr hne, stepLiteralTail, h1, h2, Term.map]
+
+/-! ### The scan-function machine on one N-Triples statement -/
+
+def ntEnv : Env := { base := none, prefixes := [], nextAnon := 0 }
+
+/-- the decoder between statements: only the top-level function on the stack -/
+def ntA (i : List Nat) : St := { stack := [⟨{}, .statement⟩], inp := i, env := ntEnv }
+
+theorem scanFn_rune {e : End} {inp : List Nat} {c : Nat} {rest : List Nat} (hs : skipWs C e false inp = .rune c rest)
+    (f : Frame) (env : Env) : scanFn C e f inp env = stepFn C e f.k f.x env (.rune c rest) := by
+  simp [scanFn, hs]
+
+theorem reach_cur_step {e : End} {f : Frame} {st : St} {o : Out} {st' : St} {r : NextRes} (herr : st.err = none)
+    (hs : st.stmts = []) (h : scanFn C e f st.inp st.env = .ok o) (hst : applyOut st o = st')
+    (hr : Reach C e o.cur st' r) : Reach C e (some f) st r :=
+  .step (hst ▸ iter_cur_ok herr hs h) hr
+
+theorem reach_pop_step {e : End} {f : Frame} {s : List Frame} {st : St} {o : Out} {st' : St} {r : NextRes}
+    (herr : st.err = none) (hs : st.stmts = []) (hstack : st.stack = f :: s)
+    (h : scanFn C e f st.inp st.env = .ok o) (hst : applyOut { st with stack := s } o = st')
+    (hr : Reach C e o.cur st' r) : Reach C e none st r :=
+  .step (hst ▸ iter_pop_ok herr hs hstack h) hr
+
+/-- the state after the subject: `PredicateObjectList_Required` is next, the predicate's `<` ahead -/
+def ntSp (x1 : Ectx) (tE : Frame) (i1 : List Nat) : St :=
+  { stack := [⟨x1, .polContinue⟩, tE, ⟨{}, .statement⟩], inp := i1, env := ntEnv }
+
+/-- Subject phase: two iterations, different in the two packages. -/
+theorem nt_subject_phase (h : NTCfg Tn T C) (j : List Nat) (c : Nat) (rest : List Nat)
+    (hsk : skipWs C .eof false j = .rune c rest) (s' : TtlDoc.T) (r1 rest2 : List Nat) (hns : nodeShape s')
+    (hterm : (c = 0x3c ∧ termIRIREF C .eof ntEnv (c :: rest) = .ok s' r1 ntEnv) ∨
+             (c = 0x5f ∧ termBNode C .eof ntEnv (c :: rest) = .ok s' r1 ntEnv))
+    (hp : skipWs C .eof false r1 = .rune 0x3c rest2) :
+    ∃ xe i1, skipWs C .eof false i1 = .rune 0x3c rest2 ∧
+      ∀ r, Reach C .eof (some ⟨{ subj := some s' }, .polRequired⟩) (ntSp { subj := some s' } ⟨xe, .triplesEnd⟩ i1) r →
+        Reach C .eof none (ntA j) r := by
+  have hidem := skipWs_idem C .eof _ _ _ _ hsk
+  cases htrig : C.trig with
+  | false =>
+    refine ⟨{}, r1, hp, fun r hr => ?_⟩
+    rcases hterm with ⟨rfl, ht⟩ | ⟨rfl, ht⟩
+    · refine reach_pop_step (f := ⟨{}, .statement⟩) (s := []) rfl rfl rfl
+        (o := { cur := some ⟨{}, .subjIRIREF⟩, push := [⟨{}, .statement⟩, ⟨{}, .triplesEnd⟩], inp := 0x3c :: rest, env := ntEnv })
+        ?_ rfl ?_
+      · show scanFn C .eof ⟨{}, .statement⟩ j ntEnv = _
+        rw [scanFn_rune hsk]
+        simp [stepFn, stepStatementRune, stepSubjectStart, withSelf, htrig]
+      · refine reach_cur_step rfl rfl
+          (o := { cur := some ⟨{ subj := some s' }, .polRequired⟩, push := [⟨{ subj := some s' }, .polContinue⟩], inp := r1, env := ntEnv })
+          ?_ rfl hr
+        show scanFn C .eof ⟨{}, .subjIRIREF⟩ (0x3c :: rest) ntEnv = _
+        rw [scanFn_rune hidem]
+        simp [stepFn, ht, subjectOf, subjectTail]
+    · refine reach_pop_step (f := ⟨{}, .statement⟩) (s := []) rfl rfl rfl
+        (o := { cur := some ⟨{}, .subjBNode⟩, push := [⟨{}, .statement⟩, ⟨{}, .triplesEnd⟩], inp := 0x5f :: rest, env := ntEnv })
+        ?_ rfl ?_
+      · show scanFn C .eof ⟨{}, .statement⟩ j ntEnv = _
+        rw [scanFn_rune hsk]
+        simp [stepFn, stepStatementRune, stepSubjectStart, withSelf, htrig]
+      · refine reach_cur_step rfl rfl
+          (o := { cur := some ⟨{ subj := some s' }, .polRequired⟩, push := [⟨{ subj := some s' }, .polContinue⟩], inp := r1, env := ntEnv })
+          ?_ rfl hr
+        show scanFn C .eof ⟨{}, .subjBNode⟩ (0x5f :: rest) ntEnv = _
+        rw [scanFn_rune hidem]
+        simp [stepFn, ht, subjectOf, subjectTail]
+  | true =>
+    refine ⟨{ subj := some s' }, 0x3c :: rest2, skipWs_idem C .eof _ _ _ _ hp, fun r hr => ?_⟩
+    have hE1 : scanFn C .eof ⟨{}, .tgE1 s'⟩ r1 ntEnv =
+        .ok { cur := some ⟨{ subj := some s' }, .polRequired⟩,
+              push := [⟨{ subj := some s' }, .triplesEnd⟩, ⟨{ subj := some s' }, .polContinue⟩],
+              inp := 0x3c :: rest2, env := ntEnv } := by
+      rw [scanFn_rune hp]
+      simp only [stepFn, Arg.orNul, show ¬ (0x3c : Nat) = 0x7b by decide, if_false]
+      cases s' <;> first | rfl | exact hns.elim
+    have hstep1 : ∀ (o1 : FnRes), stepStatementRune C .eof {} ntEnv c rest = o1 →
+        o1 = .ok { cur := some ⟨{}, .tgE1 s'⟩, inp := r1, env := ntEnv } →
+        Reach C .eof none (ntA j) r := by
+      intro o1 h1 h2
+      refine reach_pop_step (f := ⟨{}, .statement⟩) (s := []) rfl rfl rfl
+        (o := { cur := some ⟨{}, .tgE1 s'⟩, push := [⟨{}, .statement⟩], inp := r1, env := ntEnv }) ?_ rfl ?_
+      · show scanFn C .eof ⟨{}, .statement⟩ j ntEnv = _
+        rw [scanFn_rune hsk]
+        simp only [stepFn, h1, h2, withSelf]
+      · exact reach_cur_step rfl rfl hE1 rfl hr
+    rcases hterm with ⟨rfl, ht⟩ | ⟨rfl, ht⟩
+    · exact hstep1 _ rfl (by simp [stepStatementRune, stepSubjectStart, htrig, ht, labelOrSubject])
+    · exact hstep1 _ rfl (by simp [stepStatementRune, stepSubjectStart, htrig, ht, labelOrSubject])
+
+theorem skip_dot_ne_quote (h : NTCfg Tn T C) {r3 r4 : List Nat} (hd : skipWs C .eof false r3 = .rune 0x2e r4) :
+    ∃ d r', r3 = d :: r' ∧ d ≠ 0x22 := by
+  cases r3 with
+  | nil => simp [skipWs] at hd
+  | cons d r' =>
+    refine ⟨d, r', rfl, ?_⟩
+    rintro rfl
+    have : isWs C 0x22 = false := by rw [h.ws]; exact h.sp_dq
+    simp [skipWs, this] at hd
+
+/-- the statement as the Turtle / TriG model yields it -/
+def ntStmt (q : Quad (List Nat)) : Stmt :=
+  ⟨some (q.s.map BN.lbl), some (q.p.map BN.lbl), q.o.map BN.lbl, none⟩
+
+/-- Predicate, object, `Next() = true`; then `,`? `;`? `.` and back to the top-level function. -/
+theorem nt_rest_phase (h : NTCfg Tn T C) (urlOk : List Nat → Bool) (s' : TtlDoc.T) (xe : Ectx) (i1 rest2 : List Nat)
+    (hsk : skipWs C .eof false i1 = .rune 0x3c rest2) (pv r2 : List Nat)
+    (hpv : NQ.captureIRI Tn urlOk .eof rest2 = .ok pv r2)
+    (c3 : Nat) (rest3 : List Nat) (hsk3 : skipWs C .eof false r2 = .rune c3 rest3)
+    (o : Term (List Nat)) (r3 : List Nat) (hoko : labelOK o)
+    (hop : c3 = 0x3c ∨ (c3 = 0x5f ∧ NQ.posObject.bnode = true) ∨ (c3 = 0x22 ∧ NQ.posObject.literal = true))
+    (ho : NQ.captureTerm Tn urlOk .eof NQ.posObject false (c3 :: rest3) = .ok o r3)
+    (r4 : List Nat) (hd : skipWs C .eof false r3 = .rune 0x2e r4) :
+    ∃ B, Reach C .eof (some ⟨{ subj := some s' }, .polRequired⟩) (ntSp { subj := some s' } ⟨xe, .triplesEnd⟩ i1) (.yes B) ∧
+      B.stmts = [⟨some s', some (.iri pv), o.map BN.lbl, none⟩] ∧
+      ∀ r, Reach C .eof none (ntA r4) r → Reach C .eof none B.dropFirst r := by
+  let x1 : Ectx := { subj := some s' }
+  let x2 : Ectx := { subj := some s', pred := some (.iri pv) }
+  let stk : List Frame := [⟨x2, .objListContinue⟩, ⟨x1, .polContinue⟩, ⟨xe, .triplesEnd⟩, ⟨{}, .statement⟩]
+  let B : St := { stack := stk, inp := r3, env := ntEnv, stmts := [⟨some s', some (.iri pv), o.map BN.lbl, none⟩] }
+  have hiri := nt_iri h urlOk .eof ntEnv rfl rest2 pv r2 hpv
+  refine ⟨B, ?_, rfl, ?_⟩
+  · -- polRequired
+    refine reach_cur_step rfl rfl
+      (o := { cur := some ⟨x2, .object⟩, push := [⟨x2, .objListContinue⟩], inp := r2, env := ntEnv }) ?_ rfl ?_
+    · show scanFn C .eof ⟨x1, .polRequired⟩ i1 ntEnv = _
+      rw [scanFn_rune hsk]
+      simp [stepFn, stepPOL, termIRIREF, hiri, IriRes.toTerm, polOfTerm, polGo, x1, x2]
+    · -- object
+      refine reach_cur_step rfl rfl
+        (o := { emit := some (mkStmt x2 (o.map BN.lbl)), inp := r3, env := ntEnv }) ?_ rfl ?_
+      · show scanFn C .eof ⟨x2, .object⟩ r2 ntEnv = _
+        rw [scanFn_rune hsk3]
+        simp only [stepFn]
+        exact nt_object h urlOk x2 ntEnv rfl c3 rest3 o r3 hoko hop ho (skip_dot_ne_quote h hd)
+      · exact .done (iter_yes rfl (by simp [applyOut]))
+  · intro r hr
+    have hidem := skipWs_idem C .eof _ _ _ _ hd
+    -- ObjectList_Continue
+    refine reach_pop_step (f := ⟨x2, .objListContinue⟩) (s := [⟨x1, .polContinue⟩, ⟨xe, .triplesEnd⟩, ⟨{}, .statement⟩])
+      rfl rfl rfl (o := { inp := 0x2e :: r4, env := ntEnv }) ?_ rfl ?_
+    · show scanFn C .eof ⟨x2, .objListContinue⟩ r3 ntEnv = _
+      rw [scanFn_rune hd]; simp [stepFn]
+    · -- PredicateObjectList_Continue
+      refine reach_pop_step (f := ⟨x1, .polContinue⟩) (s := [⟨xe, .triplesEnd⟩, ⟨{}, .statement⟩])
+        rfl rfl rfl (o := { inp := 0x2e :: r4, env := ntEnv }) ?_ rfl ?_
+      · show scanFn C .eof ⟨x1, .polContinue⟩ (0x2e :: r4) ntEnv = _
+        rw [scanFn_rune hidem]; simp [stepFn]
+      · -- Triples_End
+        refine reach_pop_step (f := ⟨xe, .triplesEnd⟩) (s := [⟨{}, .statement⟩])
+          rfl rfl rfl (o := { inp := r4, env := ntEnv }) ?_ rfl hr
+        show scanFn C .eof ⟨xe, .triplesEnd⟩ (0x2e :: r4) ntEnv = _
+        rw [scanFn_rune hidem]; simp [stepFn]
+
+/-- ONE STATEMENT: what `NQ.statement` (N-Triples) accepts, the scan-function machine reads as the same
+    triple and is back between statements at the same place. -/
+theorem nt_statement_sim (h : NTCfg Tn T C) (urlOk : List Nat → Bool) (i j : List Nat) (q : Quad (List Nat)) (r4 : List Nat)
+    (hj : skipWs C .eof false j = skipWs C .eof false i)
+    (hst : NQ.statement Tn urlOk .eof false i = .quad q r4) (hs : labelOK q.s) (ho : labelOK q.o) :
+    ∃ B, Reach C .eof none (ntA j) (.yes B) ∧ B.stmts = [ntStmt q] ∧
+      ∀ r, Reach C .eof none (ntA r4) r → Reach C .eof none B.dropFirst r := by
+  unfold NQ.statement at hst
+  cases hsk : NQ.skipToStmt Tn false i with
+  | none => rw [hsk] at hst; cases hst
+  | some inp' =>
+    rw [hsk] at hst; simp only [] at hst
+    obtain ⟨c, rest, rfl, hskip⟩ := (nt_skipToStmt h false i).2 _ hsk
+    cases hS : NQ.captureTerm Tn urlOk .eof NQ.posSubject false (c :: rest) with
+    | err x => rw [hS] at hst; cases hst
+    | ok s r1 =>
+      rw [hS] at hst; simp only [] at hst
+      cases hP : NQ.captureTerm Tn urlOk .eof NQ.posPredicate false r1 with
+      | err x => rw [hP] at hst; cases hst
+      | ok p r2 =>
+        rw [hP] at hst; simp only [] at hst
+        cases hO : NQ.captureTerm Tn urlOk .eof NQ.posObject false r2 with
+        | err x => rw [hO] at hst; cases hst
+        | ok o r3 =>
+          rw [hO] at hst; simp only [Bool.false_eq_true, if_false] at hst
+          cases hD : NQ.expectDot Tn .eof false r3 with
+          | err x => rw [hD] at hst; cases hst
+          | ok u r4' =>
+            rw [hD] at hst; simp only [] at hst
+            injection hst with q1 q2; subst q1; subst q2
+            simp only at hs ho
+            -- the openers
+            obtain ⟨c1, rest1, hsk1, hS', hop1⟩ := nt_captureTerm_skip h urlOk _ false _ _ _ hS
+            have hidem := skipWs_idem C .eof _ _ _ _ hskip
+            rw [hidem] at hsk1
+            injection hsk1 with e1 e2; subst e1; subst e2
+            obtain ⟨c2, rest2, hsk2, hP', hop2⟩ := nt_captureTerm_skip h urlOk _ false _ _ _ hP
+            obtain ⟨c3, rest3, hsk3, hO', hop3⟩ := nt_captureTerm_skip h urlOk _ false _ _ _ hO
+            have hdot := nt_expectDot h false _ _ hD
+            have hc2 : c2 = 0x3c := by
+              rcases hop2 with hc | ⟨_, hb⟩ | ⟨_, hb⟩
+              · exact hc
+              · cases hb
+              · cases hb
+            subst hc2
+            rcases nt_term_cases urlOk .eof _ _ rest2 p r2 (Or.inl rfl) hP' with ⟨_, pv, rfl, hpv⟩ | ⟨hc, _⟩ | ⟨hc, _⟩
+            · have hterm := nt_node_term h urlOk ntEnv rfl c rest s r1 hs hop1 hS'
+              have hns : nodeShape (s.map BN.lbl) := by
+                rcases nt_term_cases urlOk .eof _ _ rest s r1 hop1 hS' with ⟨_, v, rfl, _⟩ | ⟨_, _, l, _, rfl, _⟩ | ⟨_, hl, _⟩
+                · trivial
+                · trivial
+                · cases hl
+              obtain ⟨xe, i1, hi1, hpre⟩ := nt_subject_phase h j c rest (hj ▸ hskip) (s.map BN.lbl) r1 rest2 hns hterm hsk2
+              obtain ⟨B, hB, hBs, hBt⟩ := nt_rest_phase h urlOk (s.map BN.lbl) xe i1 rest2 hi1 pv r2 hpv c3 rest3 hsk3 o r3 ho hop3 hO' _ hdot
+              exact ⟨B, hpre _ hB, by simp [hBs, ntStmt, Term.map], hBt⟩
+            · cases hc
+            · cases hc
+
+/-! ### Whole documents -/
+
+theorem nt_end_sim (j : List Nat) (hj : skipWs C .eof false j = .end_) :
+    ∃ Z, Reach C .eof none (ntA j) (.no Z) ∧ Z.err = none := by
+  refine ⟨{ stack := [], inp := [], env := ntEnv }, ?_, rfl⟩
+  refine reach_pop_step (f := ⟨{}, .statement⟩) (s := []) rfl rfl rfl
+    (o := { inp := [], env := ntEnv, term := true }) ?_ rfl ?_
+  · show scanFn C .eof ⟨{}, .statement⟩ j ntEnv = _
+    rw [scanFn_end hj]; simp [stepFn]
+  · show Reach C .eof none { stack := [], inp := [], env := ntEnv } _
+    exact .done (by simp [iter, popFrame])
+
+theorem nt_statement_done (urlOk : List Nat → Bool) (i : List Nat)
+    (h : NQ.statement Tn urlOk .eof false i = .done) : NQ.skipToStmt Tn false i = none := by
+  unfold NQ.statement at h
+  cases hsk : NQ.skipToStmt Tn false i with
+  | none => rfl
+  | some inp' =>
+    rw [hsk] at h; simp only [] at h
+    repeat' split at h
+    all_goals cases h
+
+/-- where the next statement starts, as the Turtle machine sees it -/
+theorem nt_next_cases (h : NTCfg Tn T C) (urlOk : List Nat → Bool) (started : Bool) (i : List Nat) :
+    (NQ.next Tn urlOk .eof false started i = .done → skipWs C .eof false i = .end_) ∧
+    (∀ q r4, NQ.next Tn urlOk .eof false started i = .quad q r4 →
+      ∃ i0, skipWs C .eof false i = skipWs C .eof false i0 ∧ NQ.statement Tn urlOk .eof false i0 = .quad q r4) := by
+  unfold NQ.next
+  cases started with
+  | false =>
+    simp only [Bool.false_eq_true, if_false]
+    exact ⟨fun hd => (nt_skipToStmt h false i).1 (nt_statement_done urlOk i hd), fun q r4 hq => ⟨i, rfl, hq⟩⟩
+  | true =>
+    simp only [if_true]
+    cases he : NQ.toEOL Tn .eof false i with
+    | done => exact ⟨fun _ => (nt_toEOL h false i).2 he, fun q r4 hq => (by cases hq)⟩
+    | fail x => exact ⟨fun hd => (by cases hd), fun q r4 hq => (by cases hq)⟩
+    | start rest =>
+      have hsk := (nt_toEOL h false i).1 rest he
+      simp only []
+      exact ⟨fun hd => (by rw [hsk]; exact (nt_skipToStmt h false rest).1 (nt_statement_done urlOk rest hd)),
+        fun q r4 hq => ⟨rest, hsk, hq⟩⟩
+
+theorem nt_run_sim (h : NTCfg Tn T C) (urlOk : List Nat → Bool) :
+    ∀ (fuel : Nat) (started : Bool) (i : List Nat) (qs : List (Quad (List Nat))),
+      NQ.runFuel Tn urlOk .eof false fuel started i = (qs, .clean) →
+      (∀ q ∈ qs, labelOK q.s ∧ labelOK q.o) →
+      ∀ st, (∀ r, Reach C .eof none (ntA i) r → Reach C .eof none st.dropFirst r) →
+      ∀ m, runLoop C .eof m st = (qs.map ntStmt, .clean) ∨ (runLoop C .eof m st).2 = .outOfFuel := by
+  intro fuel
+  induction fuel with
+  | zero => intro started i qs hrun; simp [NQ.runFuel] at hrun
+  | succ fuel ih =>
+    intro started i qs hrun hok st hst m
+    cases m with
+    | zero => right; rfl
+    | succ m =>
+      unfold NQ.runFuel at hrun
+      obtain ⟨hdone, hquad⟩ := nt_next_cases h urlOk started i
+      cases hn : NQ.next Tn urlOk .eof false started i with
+      | fail x => rw [hn] at hrun; simp at hrun
+      | done =>
+        rw [hn] at hrun; simp only [Prod.mk.injEq] at hrun
+        obtain ⟨rfl, _⟩ := hrun
+        obtain ⟨Z, hZ, hZe⟩ := nt_end_sim (C := C) i (hdone hn)
+        have := nextLoop_of_reach (hst _ hZ) (st.dropFirst.cost + 1)
+        unfold runLoop
+        rcases this with h1 | h1
+        · left
+          have e1 : next C .eof st = .no Z := h1
+          rw [e1]; simp [hZe]
+        · right
+          have e1 : next C .eof st = .outOfFuel := h1
+          rw [e1]
+      | quad q r4 =>
+        rw [hn] at hrun; simp only [] at hrun
+        cases hr : NQ.runFuel Tn urlOk .eof false fuel true r4 with
+        | mk qs' v =>
+          rw [hr] at hrun; simp only [Prod.mk.injEq] at hrun
+          obtain ⟨rfl, rfl⟩ := hrun
+          obtain ⟨i0, hi0, hstmt⟩ := hquad q r4 hn
+          have hq := hok q List.mem_cons_self
+          obtain ⟨B, hB, hBs, hBt⟩ := nt_statement_sim h urlOk i0 i q r4 hi0 hstmt hq.1 hq.2
+          have := nextLoop_of_reach (hst _ hB) (st.dropFirst.cost + 1)
+          unfold runLoop
+          rcases this with h1 | h1
+          · have e1 : next C .eof st = .yes B := h1
+            rw [e1]; simp only [hBs]
+            rcases ih true r4 qs' hr (fun q' hq' => hok q' (List.mem_cons_of_mem _ hq')) B hBt m with h2 | h2
+            · left; rw [h2]; simp
+            · right
+              cases hrl : runLoop C .eof m B with
+              | mk ss v' => rw [hrl] at h2; simp only [] at h2 ⊢; exact h2
+          · right
+            have e1 : next C .eof st = .outOfFuel := h1
+            rw [e1]
+
+/-- DOCUMENT LEVEL: whatever the N-Triples decoder model accepts with triples `qs` (no blank-node label
+    containing ':'), the Turtle / TriG scan-function machine (no base, no prefixes) accepts with the
+    same triples and the same blank-node labels. -/
+theorem nt_doc_sim (h : NTCfg Tn T C) (hC : C.P.Consumes) (urlOk : List Nat → Bool) (inp : List Nat)
+    (qs : List (Quad (List Nat))) (hrun : NQ.run Tn urlOk .eof false inp = (qs, .clean))
+    (hok : ∀ q ∈ qs, labelOK q.s ∧ labelOK q.o) :
+    run C .eof none [] inp = (qs.map ntStmt, .clean) := by
+  unfold NQ.run at hrun
+  have := nt_run_sim h urlOk _ false inp qs hrun hok (ntA inp) (fun r hr => hr) ((ntA inp).cost + 1)
+  rcases this with h1 | h1
+  · exact h1
+  · exact absurd h1 (runLoop_fuel hC _ _ (Nat.lt_succ_self _))
 
 end RdfModel.TtlDoc
